@@ -378,14 +378,28 @@ package desync
 
 //@ ghost var $sawDone bool
 
+//@ ghost var $dirs int
+//@ ghost var $stale bool
 //@ func UnTar
-//@   prop C07
+//@   prop C07 C05
 //@   safety none
 //@   requires $consumed >= 0
 //@   ghost@entry $sawDone = false
 //@   ghost@recv:ctx.Done() $sawDone = true
 //@   loop 1: invariant !$sawDone && $consumed >= 0
 //@   ensures $sawDone ==> is(r0, Interrupted)
+//# C05, for a writer that restores a directory's modification time inside CreateDir (LocalFS): creating an
+//# entry inside a directory changes that directory's time again, and every entry that follows a directory
+//# in the archive lies inside the first directory. So no entry may be created after a directory's time
+//# was set, unless the time is set again afterwards (there is no such call today).
+//@   ghost@entry $dirs = 0
+//@   ghost@entry $stale = false
+//@   ghost@after:CreateDir $stale = $stale || $dirs > 0
+//@   ghost@after:CreateDir $dirs = $dirs + 1
+//@   ghost@after:CreateFile $stale = $stale || $dirs > 0
+//@   ghost@after:CreateSymlink $stale = $stale || $dirs > 0
+//@   ghost@after:CreateDevice $stale = $stale || $dirs > 0
+//@   ensures @C05 r0 == nil ==> !$stale
 
 //# UnTarIndex reports what its goroutines report (errgroup: Wait is nil only if every goroutine returned
 //# nil - library semantics, trusted). The feeder returns nil only after it handed the result channel of
@@ -1415,9 +1429,15 @@ package desync
 //@   oncall SetFilePermissions: requires $arg0 == n
 //@   oncall Chtimes: requires $done && $arg0 == pjoin(fs.Root, n.Name) && $arg2 == n.MTime
 
+//@ ghost var $timed bool
 //@ func (fs *LocalFS) CreateSymlink
 //@   prop C18 C05
 //@   safety none
+//# the link's own modification time is restored (needs an lutimes-style call: none exists today)
+//@   ghost@entry $timed = false
+//@   ghost@after:Lutimes $timed = true
+//@   ghost@after:UtimesNanoAt $timed = true
+//@   ensures @C05 r0 == nil ==> $timed
 //@   oncall Unlink: requires $arg0 == pjoin(fs.Root, n.Name)
 //@   oncall Symlink: requires $arg1 == pjoin(fs.Root, n.Name) && $arg0 == n.Target
 //@   oncall SetSymlinkPermissions: requires $arg0 == n
@@ -1566,8 +1586,44 @@ package desync
 //@ func writeChunk
 //@   prop C08
 //@   safety none
-//@   requires c.Start < 1<<62 && c.Size < 1<<62 && !s.$skip
+//# (for offsets and sizes below 2^62 - the conversions to int64 are exact - and a store that verifies)
 //@   modifies allmem(uint8), heap(Chunk.data), s.$gets, s.$lastErr, $fv, $noseg
 //@   ghost@after:getChunk $noseg = ($r0 == nil)
-//@   ensures @C08 $noseg && !isBlank && H(old(frange(f, c.Start, c.Size))) == c.ID ==> s.$gets == old(s.$gets) && $fv == old($fv)
-//@   ensures @C08,C01,C03 $noseg && r0 == nil ==> H(frange(f, c.Start, c.Size)) == c.ID
+//@   ensures @C08 c.Start < 1<<62 && c.Size < 1<<62 && $noseg && !isBlank && H(old(frange(f, c.Start, c.Size))) == c.ID ==> s.$gets == old(s.$gets) && $fv == old($fv)
+//@   ensures @C08,C01,C03 c.Start < 1<<62 && c.Size < 1<<62 && !s.$skip && $noseg && r0 == nil ==> H(frange(f, c.Start, c.Size)) == c.ID
+
+// ---------------------------------------------------------------------------------------------
+// C05: GNU tar output. The header's type flag says character device exactly for character device
+// nodes, and the header's mode carries the unix permission and set-id/sticky bits of the node.
+
+//@ func (tw *archive/tar.Writer) WriteHeader(hdr) (err)
+//@   pure
+
+//@ func (fs TarWriter) CreateDevice
+//@   prop C05
+//@   safety none
+//@   oncall WriteHeader: requires ($arg0.Typeflag == 51 <==> n.Mode & os.ModeCharDevice != 0) && ($arg0.Typeflag == 52 <==> n.Mode & os.ModeCharDevice == 0)
+//@   requires n.Major < 1<<32 && n.Minor < 1<<32
+//@   oncall WriteHeader: requires $arg0.Devmajor == n.Major && $arg0.Devminor == n.Minor
+//@   oncall WriteHeader: requires $arg0.Name == n.Name && $arg0.Uid == n.UID && $arg0.Gid == n.GID
+//@   oncall WriteHeader: requires $arg0.ModTime == n.MTime
+
+//# unix view of a node's mode in a tar header: the set-id and sticky bits are 04000 / 02000 / 01000
+//@ spec func tarModeOK(h int, m os.FileMode) bool = (h & 2048 != 0 <==> m & os.ModeSetuid != 0) && (h & 1024 != 0 <==> m & os.ModeSetgid != 0) && (h & 512 != 0 <==> m & os.ModeSticky != 0) && h & 511 == m & 511
+
+//@ func (fs TarWriter) CreateFile
+//@   prop C05
+//@   safety none
+//@   oncall WriteHeader: requires tarModeOK($arg0.Mode, n.Mode)
+//@   oncall WriteHeader: requires $arg0.Typeflag == 48 && $arg0.Name == n.Name && $arg0.Uid == n.UID && $arg0.Gid == n.GID && $arg0.ModTime == n.MTime && $arg0.Xattrs == n.Xattrs
+
+//@ func (fs TarWriter) CreateDir
+//@   prop C05
+//@   safety none
+//@   oncall WriteHeader: requires tarModeOK($arg0.Mode, n.Mode)
+//@   oncall WriteHeader: requires $arg0.Typeflag == 53 && $arg0.Name == n.Name && $arg0.Uid == n.UID && $arg0.Gid == n.GID && $arg0.ModTime == n.MTime && $arg0.Xattrs == n.Xattrs
+
+//@ func (fs TarWriter) CreateSymlink
+//@   prop C05
+//@   safety none
+//@   oncall WriteHeader: requires $arg0.Typeflag == 50 && $arg0.Name == n.Name && $arg0.Linkname == n.Target && $arg0.Uid == n.UID && $arg0.Gid == n.GID && $arg0.ModTime == n.MTime
